@@ -736,6 +736,15 @@ func checkC10(w *World, r *Recorder) propInfo {
 	// set's own (a flag pointer aimed at a shared package-level variable is
 	// rewritten by a decode into any other set carrying the same pointer, and
 	// every such set then emits the token's value instead of 1)
+	// W17: "a single nonce is a bare byte string": the nonce codec emits a bare
+	// byte string for exactly one entry and an array otherwise, so a valid
+	// profile-2 claims-set has the specified wire form only if validation
+	// accepts exactly one entry — the C01-R2 cells of the nonce getters, run
+	// again under this property (a getter that tolerates N identical entries
+	// makes a set valid whose key 10 is an array)
+	importRules(w, r, checkC01, "C10-W17", func(o *Oblig) bool {
+		return o.Rule == "C01-R2" && strings.Contains(o.Construct, "GetNonce")
+	})
 	ruleSettersStoreOwnedMemory(w, r, "C10-W16")
 	r.Floor("C10-W16", 20)
 	r.Floor("C10-W1", 26)
